@@ -24,6 +24,36 @@ CLAIMS = {
          'Assumes the ABIXML/ELF readers return nil (not a partial corpus) on malformed input; libxml2 not modelled.', '5 C09'),
 }
 
+CLAIMS.update({
+ 'C05': ('proof',
+         'Chain of contracts on real functions, each link for all inputs: (1) categorize_harmful_diff_node adds exactly the '
+         'documented harmful category for every combination of the 29 detection predicates, to the node and its canonical node; '
+         '(2) node-level pipeline lemma on harmless_harmful_filter::visit + set_diff_context_from_opts + diff::is_filtered_out: a '
+         'node on which a harmful predicate fires (or no predicate at all) is never filtered out with default options; '
+         '(3) has_incompatible_changes is true whenever a net removed function/variable exists; (4) abidiff main maps '
+         'has_net_changes/has_incompatible_changes to bits 4/8.',
+         'Scoped to the anchored mechanisms. Assumed (not within reach of CBMC\'s C++ front end): the diff tree contains a node on '
+         'which the predicate fires, category propagation to parent nodes, redundancy marking, and '
+         'apply_filters_and_compute_diff_stats counting an unfiltered changed interface.', '5 C05'),
+ 'C07': ('proof',
+         'Contracts on the real default bitmaps (documented harmless kinds are in the harmless bitmap, bitmaps disjoint and '
+         'exhaustive), on set_diff_context_from_opts (harmless categories switched off iff !--harmless), on '
+         'categorize_harmless_diff_node (only harmless bits, documented kinds get their bit) and the node-level pipeline lemma: a '
+         'node on which only harmless predicates fire is filtered by default and shown with --harmless.',
+         'Scoped as C05; the detection predicates themselves (IR level) are ghost inputs.', '5 C07'),
+ 'C15': ('proof',
+         'Contract on the real die_member_offset / read_and_convert_DW_at_bit_offset / die_constant_data_member_location / '
+         'eval_quickly: for every DIE whose member location is DW_AT_data_bit_offset, a constant or a DW_OP_plus_uconst expression, '
+         'the recorded offset equals the DWARF-specified value (both endiannesses, bit-fields incl. wrap-around encodings); the '
+         'base-class site of add_or_update_class_type records exactly that offset.',
+         'Scoped to member/base offsets. libdw is a ghost DIE model (incl. sign extension of fixed-size forms). Type sizes, arrays '
+         'and per-TU type resolution are not decided.', '5 C15'),
+ 'C43': ('proof',
+         'Two-DIE lemma on the real die_member_offset: the DWARF 4 description (data_member_location + byte_size/bit_size/bit_offset) '
+         'and the DWARF 5 description (data_bit_offset) of the same member give the same offset on little- and big-endian targets.',
+         'Scoped to bit-field/member offsets; strx/line_strp forms and type units are not decided.', '5 C43'),
+})
+
 NA = {
  'C01': 'rests on reflexivity of ~40 mutually recursive equals() overloads, canonicalisation and DIE de-duplication over arbitrary type graphs (abg-ir.cc, abg-dwarf-reader.cc); outside the C++ subset CBMC 6.11 parses and not expressible as a contract on any reachable function',
  'C02': 'writer/reader pair over the whole IR and libxml2 trees; outside front-end reach (attribute escaping is claimed under C04)',
